@@ -7,10 +7,11 @@
   removal of an inserted tag).  All statements hold for ALL byte strings.
 -/
 import SoyVerif.Lemmas.EscapeQuery
+import SoyVerif.Lemmas.EscapeBreaks
 
 namespace SoyVerif.Props.C16
-open SoyVerif SoyVerif.Model SoyVerif.Spec
-open SoyVerif.Lemmas.EscapeQuery
+open SoyVerif SoyVerif.Model SoyVerif.Spec SoyVerif.Model.Directives
+open SoyVerif.Lemmas.EscapeQuery SoyVerif.Lemmas.EscapeBreaks SoyVerif.Lemmas.EscapeHtml
 
 /-- (5) escapeUri = net/url.QueryEscape: the output consists of unreserved characters
     [A-Za-z0-9-_.~], `+` and `%` only, and percent-decodes back to exactly the value. -/
@@ -23,5 +24,37 @@ example : queryEscape [97, 32, 47, 38, 255, 126] = [97, 43, 37, 50, 70, 37, 50, 
 example : queryUnescape [97, 43, 37, 50, 70, 37, 102, 102] = some [97, 32, 47, 255] := by decide
 example : queryUnescape [37, 50] = none := by decide
 example : urlSafe [47] = false := by decide
+
+/-- (4a) changeNewlineToBr changes nothing but line breaks: with the inserted `<br>` removed the
+    output is exactly the escaped text of the value without its CR / LF bytes (so no data byte
+    passes raw), and in the output as written every `&` still begins a complete character
+    reference (no reference is cut by a `<br>`). -/
+theorem changeNewlineToBr_only_breaks (s : Bytes) :
+    removeTag brTag (changeNewlineToBr s) = goHtmlEscape (s.filter notNL) ∧
+    (∀ pre post, changeNewlineToBr s = pre ++ 38 :: post → (matchRef (38 :: post)).isSome = true) := by
+  refine ⟨?_, (ampsStartRefs_iff _).1 (nl_amps s false)⟩
+  unfold removeTag changeNewlineToBr
+  rw [removeBr_nlToBr _ (fun b hb => ((noRawSpecial_iff _).1 (goHtmlEscape_noRaw s) b hb).1), filter_notNL_goHtmlEscape]
+
+example : changeNewlineToBr [60, 13, 10, 97, 10] = [38, 108, 116, 59, 60, 98, 114, 62, 97, 60, 98, 114, 62] := by decide
+example : removeTag brTag [38, 108, 116, 59, 60, 98, 114, 62, 97, 60, 98, 114, 62] = [38, 108, 116, 59, 97] := by decide
+
+/-- (4b) insertWordBreaks changes nothing but break opportunities, for every limit `n` (in range
+    or not): with the inserted `<wbr>` removed the output is exactly the escaped text of the value,
+    and in the output as written every `&` still begins a complete character reference — a
+    `<wbr>` is never put inside a reference (`wordBreaks_keeps_entities`). -/
+theorem insertWordBreaks_only_breaks (s : Bytes) (n : Int) :
+    removeTag wbrTag (insertWordBreaks s n) = goHtmlEscape s ∧
+    (∀ pre post, insertWordBreaks s n = pre ++ 38 :: post → (matchRef (38 :: post)).isSome = true) := by
+  refine ⟨?_, (ampsStartRefs_iff _).1 (wb_amps n s 0 0 (by simp))⟩
+  unfold removeTag insertWordBreaks
+  exact removeWbr_wordBreaks n _ (fun b hb => ((noRawSpecial_iff _).1 (goHtmlEscape_noRaw s) b hb).1) 0 0 false
+
+/- "<<<<" with n = 2: the break falls between two references, not inside one -/
+example : insertWordBreaks [60, 60, 60, 60] 2 =
+    [38, 108, 116, 59, 38, 108, 116, 59, 60, 119, 98, 114, 62, 38, 108, 116, 59, 38, 108, 116, 59] := by decide
+example : insertWordBreaks [97, 98, 99] 1 = [97, 60, 119, 98, 114, 62, 98, 60, 119, 98, 114, 62, 99] := by decide
+/- a four-byte rune counts as one character and is not split -/
+example : insertWordBreaks [240, 159, 152, 128, 97] 1 = [240, 159, 152, 128, 60, 119, 98, 114, 62, 97] := by decide
 
 end SoyVerif.Props.C16
